@@ -760,7 +760,18 @@ class Machine:
         if op in ('JLT', 'JGT', 'JEQ', 'JNE', 'JLE', 'JGE'):
             if self.flags is None:
                 raise AsmUnsupported('conditional jump without a preceding compare at pc %d' % pc)
-            a, b = self.flags
+            if isinstance(self.flags[0], str) and self.flags[0] == 'result':
+                # flags of a logic/arithmetic result: compare the (sign-extended) result with zero
+                _, rv, rw = self.flags
+                if isinstance(rv, int):
+                    if rv >> (rw - 1):
+                        rv = (rv - (1 << rw)) & M64
+                    a, b = rv, 0
+                else:
+                    rt = bv(rv, rw)
+                    a, b = (z3.SignExt(64 - rw, rt) if rw < 64 else rt), 0
+            else:
+                a, b = self.flags
             if isinstance(a, int) and isinstance(b, int):
                 sa = a - (1 << 64) if a >> 63 else a
                 sb = b - (1 << 64) if b >> 63 else b
@@ -830,8 +841,14 @@ class Machine:
             s, d = A
             a = self.src_val(s, 64, pc)
             b = self.src_val(d, 64, pc)
-            self.dst_store(d, self.arith(op, a, b), 64, pc)
-            self.flags = None
+            res = self.arith(op, a, b)
+            self.dst_store(d, res, 64, pc)
+            if op == 'SUBQ' and not isinstance(a, Addr) and not isinstance(b, Addr):
+                self.flags = (b, a)            # dst - src: same flags as CMPQ dst, src
+            elif isinstance(res, Addr):
+                self.flags = None
+            else:
+                self.flags = ('result', res, 64)  # ZF/SF of the result (OF cleared for logic ops; ADDQ overflow is not modelled)
             return None
         if op in ('ORB', 'XORB'):
             s, d = A
@@ -849,7 +866,7 @@ class Machine:
                 self.set_gpr(d, r, 8, zero_extend=False)
             else:
                 self.dst_store(d, r, 8, pc)
-            self.flags = None
+            self.flags = ('result', r, 8)
             return None
         if op in ('SHLQ', 'SHRQ'):
             n = int(A[0][1:], 0)
